@@ -231,6 +231,33 @@ def check_move_into_self(cls_name, in_patch, rec):
         t.destroy()
 
 
+def check_copy_name_default(cls_name, in_patch, rec):
+    """copy(src, group_node, name=None): None is the documented default of the keyword (= take the source's name)."""
+    from vt.treemodel import dump_real
+
+    t = _mk(cls_name)()
+    case = dict(kind="copy-name-none", cls=cls_name, in_patch=in_patch)
+    try:
+        r = t.rec
+        r["g/d"] = [1, 2]
+        r.create_group("h")
+        r.create_group("h2")
+        if in_patch:
+            t.commit()
+        try:
+            r.copy("g/d", r["h"])
+            r.copy("g/d", r["h2"], name=None)
+        except Exception as e:  # noqa: BLE001
+            rec.fail("C01:op-fails:copy:name-none", case, f"{type(e).__name__}: {e}", "as without the keyword")
+            return
+        d = dump_real(r)
+        if d.get("/h/d") != d.get("/g/d") or d.get("/h2/d") != d.get("/g/d"):
+            rec.fail("C01:view-differs:copy-name-none", case, sorted(d), "/h/d and /h2/d are copies of /g/d")
+        rec.case(nt_key=[cls_name, in_patch, "copy-name-none"], classes=["copy_name_keyword_default"], sample=case)
+    finally:
+        t.destroy()
+
+
 def run_shard(shard, tier, seed, rec):
     H.install_work_guard()
     if shard.get("kind") == "keys":
@@ -240,6 +267,7 @@ def run_shard(shard, tier, seed, rec):
                 check_marker_forms(cn, ip, rec)
                 check_lazy_big(cn, ip, rec)
                 check_move_into_self(cn, ip, rec)
+                check_copy_name_default(cn, ip, rec)
         return
     i = shard["i"]
     n = {"quick": 70, "thorough": 2500}[tier]
@@ -257,6 +285,8 @@ def replay(rp, rec):
             check_invalid_keys(rp["case"]["cls"], rp["case"]["in_patch"], rec)
         elif rp["case"].get("kind") == "lazybig":
             check_lazy_big(rp["case"]["cls"], rp["case"]["in_patch"], rec)
+        elif rp["case"].get("kind") == "copy-name-none":
+            check_copy_name_default(rp["case"]["cls"], rp["case"]["in_patch"], rec)
         elif rp["case"].get("kind") == "move-into-self":
             check_move_into_self(rp["case"]["cls"], rp["case"]["in_patch"], rec)
         elif rp["case"].get("kind") == "marker":
